@@ -14,13 +14,22 @@ MANIFEST = dict(
     technique="Lean 4 proof over a hand-written model + differential correspondence run with real witness child processes",
     design="5/C20",
 )
-GEN: list[str] = ["HostEnv", "Cli", "Legacy"]
+GEN: list[str] = []
+# not stated by the property text (DESIGN 9.9): the library's default environment, the command line, the legacy paths
+SUPP_GEN = ["HostEnv", "Cli", "Legacy"]
+SUPP_THEOREMS = [
+    "c20_host_translated", "c20_default_env_sound", "c20_default_env_complete", "c20_nothing_else_leaks",
+    "c20_child_env_exact", "c20_cli_defaults", "c20_cli_value_option", "c20_cli_flags", "c20_cli_missing_value",
+    "c20_cli_discovery_first", "c20_cli_discovery_none", "c20_cli_decision", "c20_cli_nothing_launched",
+    "c20_cli_launch_exact", "c20_legacy_translated", "c20_legacy_aliases_same_object",
+]
 THEOREMS = [
     "c20_load_configured",
     "c20_launch_exact",
     "c20_runner_launch_exact",
     "c20_runner_one_launch_per_name",
     "c20_runner_mixed_names",
+    "c20_host_process_irrelevant",
     "c20_errors_classified",
     "c20_errors_surface",
     "c20_extra_members_ignored",
@@ -28,10 +37,6 @@ THEOREMS = [
     "c20_path_command_verbatim",
     "c20_executable_independent_of_host",
     "c20_unresolvable_not_launched",
-    "c20_host_translated", "c20_default_env_sound", "c20_default_env_complete", "c20_nothing_else_leaks",
-    "c20_child_env_exact", "c20_cli_defaults", "c20_cli_value_option", "c20_cli_flags", "c20_cli_missing_value",
-    "c20_cli_discovery_first", "c20_cli_discovery_none", "c20_cli_decision", "c20_cli_nothing_launched",
-    "c20_cli_launch_exact", "c20_legacy_translated", "c20_legacy_aliases_same_object",
 ]
 RULE = (
     "generated configuration documents (1..4 servers; every 5th document uses BARE command names: copies of one witness "
@@ -75,8 +80,11 @@ ARGS = [
     "cancel scope", "json object must be str", "()", "() { :; }", "LOG_LEVEL=ERROR",
 ]
 ENV_KEYS = ["FOO", "BAR_1", "PATH", "LOG_LEVEL", "HOME", "X", "lower_case", "MCP_TOKEN",
+            # names that look like credentials (what log-scrubbing code looks for)
+            "SERVICE_API_KEY", "GITHUB_TOKEN", "DB_PASSWORD", "CLIENT_SECRET", "AWS_SECRET_ACCESS_KEY", "passwd",
+            "CREDENTIALS_FILE", "PRIVATE_KEY", "AUTH",
             "LOGGING_LEVEL", "LOGNAME", "SHELL", "TERM", "USER", "APPDATA", "0", "env", "command", "%s"]
-ENV_VALS = ["", "1", "a b", "q\"'q", "=", "/usr/bin:/bin", "ERROR", "debug", "ü", "$HOME", "x" * 200,
+ENV_VALS = ["sk-live-123", "***", "ghp_abcDEF", "", "1", "a b", "q\"'q", "=", "/usr/bin:/bin", "ERROR", "debug", "ü", "$HOME", "x" * 200,
             "0", "false", "null", "CRITICAL", "critical", "Error", "WARNING", "()", "() { :; }; x", "%s %d", "{0}",
             "\r\n", "\u2028", "a\nb"]
 TIMEOUTS = [None, 1, 30, 120, 0.5, 2.25, 7.0, "5", "2.5", "10.0", "0.125",
@@ -145,6 +153,25 @@ WITNESS_MODES = [None, None, {"caps": ["tools", "resources", "prompts"], "lists"
 HOST_ENVS = [{"LOGNAME": "() { :; }; x", "TERM": ""}, {"SHELL": None, "USER": "u s e r"}, {"HOME": "()", "TERM": "xterm"}]
 
 
+def stdout_may_fail(c):
+    """A stdout that cannot take what is printed (not UTF-8, or closed) is an I/O problem of the host's own; it must
+    not keep a library entry point from launching what is configured.  It is only generated where the entry point has
+    nothing it MUST say before the launch: not for the command line itself (`main` announces what it tests), not when
+    an error has to be reported (a name that cannot be loaded, a failing command function), not for a second run
+    after the first one's report failed."""
+    if c["expect"] != "valid" or c["entry"] == "cliMain" or c.get("repeat", 1) > 1:
+        return False
+    if c["entry"] == "runner":
+        known = c["doc"].get("mcpServers", {})
+        if c.get("mixed") or c.get("cmdfunc") == "raises" or any(n not in known for n in c["names"]):
+            return False
+        if c.get("bare") and len(expected_launches(c, {"PATH": ""})) != len(c["names"]):
+            return False
+    if c.get("bare"):
+        return False
+    return True
+
+
 def decorate(rng, case):
     """ways of USING the entry points that do not change what has to be launched"""
     c = dict(case)
@@ -175,8 +202,13 @@ def decorate(rng, case):
         c["legacy"] = rng.choice(["names", "modules", "transport", "asyncgen"])
     if e == "runner" and rng.random() < 0.3:
         c["legacy"] = "names"
+    # the host process: logging at DEBUG with a handler that formats; a stdout that is not UTF-8, or closed
+    if rng.random() < 0.45:
+        c["logging"] = "debug"
     if rng.random() < 0.12 and c["expect"] == "valid":
         c["repeat"] = 2
+    if rng.random() < 0.4 and stdout_may_fail(c):
+        c["stdout"] = rng.choice(["ascii", "cp1252", "closed"])
     if rng.random() < 0.15:
         c["host_env"] = rng.choice(HOST_ENVS)
     return c
@@ -418,6 +450,11 @@ def drop_unresolvable(case, launches, default_env):
     return out
 
 
+def dflt_of(o):
+    """the default environment a child must get in this case (see config_h.expected_default)"""
+    return H.expected_default(o.get("parent_env"), o["default_env"])
+
+
 def _model_cmd(c):
     m = re.match(r"@D(\d+)/", c) if isinstance(c, str) else None
     return f"@W{m.group(1)}" if m else c
@@ -486,6 +523,19 @@ class Entry(Suite):
             out.append({"entry": "cliMain", "file": "ok", "doc": d0, "names": ["sqlite"], "expect": "valid", "main_mode": mode,
                         "cfgname": "server_config.json" if mode == "discover" else "config.json", "verbose": mode == "short",
                         "witness_mode": WITNESS_MODES[2 + (mode == "short")]})
+        d6 = {"mcpServers": {"svc": {"command": "@W0", "args": ["héllo", "日本語", "--ключ"],
+                                     "env": {"SERVICE_API_KEY": "sk-live-123", "GITHUB_TOKEN": "ghp_abcDEF", "DB_PASSWORD": "p w",
+                                             "FOO": "1"}}}}
+        for e in ENTRIES:
+            for lg_, so in (("debug", "utf-8"), (None, "ascii"), ("debug", "cp1252"), (None, "closed")):
+                c = {"entry": e, "file": "ok", "doc": d6, "names": ["svc"], "expect": "valid", "stdout": so}
+                if not stdout_may_fail(c):
+                    c["stdout"] = "utf-8"
+                if lg_:
+                    c["logging"] = lg_
+                if e in ("cliTest", "cliMain"):
+                    c["verbose"] = lg_ == "debug"
+                out.append(c)
         for lg in ("names", "modules", "transport", "asyncgen"):
             out.append({"entry": "loader", "file": "ok", "doc": d1, "names": ["b"], "expect": "valid", "legacy": lg})
         out.append({"entry": "runner", "file": "ok", "doc": d3, "names": ["p", "q"], "expect": "valid", "legacy": "names"})
@@ -514,7 +564,7 @@ class Entry(Suite):
                 out += [decorate(rng, c) for c in malformed_cases(rng, doc)]
         cov = {}
         for c in out:
-            for k in ("style", "cfgname", "main_mode", "cmdfunc", "verbose", "repeat", "legacy"):
+            for k in ("style", "cfgname", "main_mode", "cmdfunc", "verbose", "repeat", "legacy", "logging", "stdout"):
                 if k in c:
                     cov[f"{k}={c[k]}"] = cov.get(f"{k}={c[k]}", 0) + 1
             if "witness_mode" in c:
@@ -544,13 +594,13 @@ class Entry(Suite):
         else:
             f = {"k": "invalid"}
         entry = "cliTest" if case["entry"] == "cliMain" else case["entry"]
-        return {"m": "config", "entry": entry, "file": f, "names": case["names"], "dflt": o["default_env"],
+        return {"m": "config", "entry": entry, "file": f, "names": case["names"], "dflt": dflt_of(o),
                 "files": model_files(case)}
 
     def compare(self, case, o, m):
         if o.get("hang"):
             return "entry point did not return"
-        a = sorted(_launch_key(l) for l in drop_unresolvable(case, o["launches"], o["default_env"]))
+        a = sorted(_launch_key(l) for l in drop_unresolvable(case, o["launches"], dflt_of(o)))
         b = sorted(_launch_key({"cmd": _model_cmd(l["argv"][0]), "argv": l["argv"][1:], "env": l["env"]}) for l in m["launches"]
                    for _ in range(case.get("repeat", 1)))
         if a != b:
@@ -587,8 +637,8 @@ class Entry(Suite):
         if o.get("hang"):
             return (f"hang/{e}", f"{e} did not return within {H.ENTRY_TIMEOUT_S + 30:.0f} s", None)
         if case["expect"] == "valid":
-            want = expected_launches(case, o["default_env"]) * case.get("repeat", 1)
-            got = drop_unresolvable(case, o["launches"], o["default_env"])
+            want = expected_launches(case, dflt_of(o)) * case.get("repeat", 1)
+            got = drop_unresolvable(case, o["launches"], dflt_of(o))
             wk = sorted(_launch_key(l) for l in want)
             gk = sorted(_launch_key(l) for l in got)
             if wk != gk:
@@ -626,8 +676,12 @@ class Entry(Suite):
                                 f"(launched: {sorted(l['cmd'] for l in got)})", {"launches": want})
                     if g["argv"] != w["argv"]:
                         return (f"wrong-argv/{e}", f"{e}: child saw argv {g['argv']!r}, configured {w['argv']!r}", {"launches": want})
+                    diff = {k: (g["env"].get(k), w["env"].get(k)) for k in sorted(set(g["env"]) | set(w["env"]))
+                            if g["env"].get(k) != w["env"].get(k)}
                     return (f"wrong-env/{e}", f"{e}: child environment differs from the configured one "
-                            f"(keys seen {sorted(g['env'])}, wanted {sorted(w['env'])})", {"launches": want})
+                            f"(keys seen {sorted(g['env'])}, wanted {sorted(w['env'])}; (seen, wanted) of "
+                            f"{ {k: (str(a)[:40] if a is not None else None, str(b)[:40] if b is not None else None) for k, (a, b) in list(diff.items())[:3]} })",
+                            {"launches": want})
                 return (f"extra-launch/{e}", f"{e}: launches {[l['cmd'] for l in rest_g]} not asked for", {"launches": want})
             if e == "runner" and isinstance(o.get("ret"), dict) and o["ret"].get("n") is not None \
                     and case.get("cmdfunc", "plain") != "never" and case.get("repeat", 1) == 1:
@@ -677,7 +731,7 @@ class Entry(Suite):
         return case["expect"] == "valid"
 
     def shrink_candidates(self, case):
-        for k in ("legacy", "host_env", "repeat", "witness_mode", "verbose", "user_specified", "cmdfunc", "style", "cfgname", "cfgdir"):
+        for k in ("logging", "stdout", "legacy", "host_env", "repeat", "witness_mode", "verbose", "user_specified", "cmdfunc", "style", "cfgname", "cfgdir"):
             if k in case and not (k == "cfgname" and case.get("main_mode") == "discover"):
                 yield {a: b for a, b in case.items() if a != k}
         if case.get("main_mode") not in (None, "explicit"):
@@ -741,9 +795,7 @@ class HostEnv(Suite):
     SUPPLEMENTARY: what the library's default environment contains is the library's definition, not part of the
     property text; a difference here is reported in the evidence notes, not as a violation."""
     name = "hostenv"
-
-    def __init__(self):
-        self.mismatches = []
+    supplementary = True
 
     def cases(self, ctx, budget):
         rng = ctx.sub_rng("c20-hostenv", budget)
@@ -765,9 +817,7 @@ class HostEnv(Suite):
         return {"m": "host", "op": "env", "win32": bool(case.get("win32")), "parent": case["parent"]}
 
     def compare(self, case, o, m):
-        if o["env"] != m["env"] and len(self.mismatches) < 5:
-            self.mismatches.append({"case": case, "impl": o, "model": m})
-        return None
+        return None if o["env"] == m["env"] else f"default environment {o['env']!r}, model {m['env']!r}"
 
     def kind(self, case, o):
         e = o.get("env") or {}
@@ -852,9 +902,7 @@ class Cli(Suite):
     """`__main__.main()` driven through `sys.argv` in a scratch cwd / HOME, against `Model.Host.act` + `cliLaunch`
     (option table, defaults and default locations regenerated from the source)."""
     name = "cli"
-
-    def __init__(self):
-        self.mismatches = []
+    supplementary = True
 
     def cases(self, ctx, budget):
         rng = ctx.sub_rng("c20-cli", budget)
@@ -907,16 +955,16 @@ class Cli(Suite):
             docs[H._cli_model_path(loc)] = None if doc is None else model_doc(doc)
             files += [f"@D{i}/witness" for i in H.placeholders(doc or {})]
         return {"m": "host", "op": "cli", "argv": case["argv"], "existing": list(docs), "home": "@HOME", "docs": docs,
-                "dflt": o["default_env"], "files": files}
+                "dflt": dflt_of(o), "files": files}
 
     def compare(self, case, o, m):
         a = sorted(_launch_key(l) for l in o["launches"])
         b = sorted(_launch_key({"cmd": _model_cmd(l["argv"][0]), "argv": l["argv"][1:], "env": l["env"]}) for l in m["launches"])
         want_exit = {"usage": [2], "no-config": [1], "list": ["returned", 0, 1], "test": [0, 1]}[m["action"]]
         if a != b:
-            return "launches differ"
-        if o["exit"] not in want_exit and len(self.mismatches) < 5:
-            self.mismatches.append({"case": case, "exit": o["exit"], "model": m["action"]})   # exit status: informational
+            return f"launches differ (model action {m['action']})"
+        if o["exit"] not in want_exit:
+            return f"exit status {o['exit']!r}, model action {m['action']}"
         return None
 
     def oracle(self, case, o):
@@ -966,20 +1014,5 @@ class Cli(Suite):
             yield dict(case, present={k: v for k, v in case["present"].items() if k != loc})
 
 
-_SUPP: list = []
-
-
-def extra(ctx, tier):
-    """supplementary correspondences: differences are informational (evidence notes), see EXTEND rule 3"""
-    for s in _SUPP:
-        n = len(getattr(s, "mismatches", []))
-        if n and tier != "search":
-            print(f"# C20 supplementary correspondence '{s.name}' differs from the model on {n}+ input(s) (informational): "
-                  + canon(s.mismatches[0])[:300])
-        ctx.notes.append(f"supplementary correspondence '{s.name}': {n} difference(s) between implementation and model"
-                         + (": " + canon(s.mismatches[0])[:600] if n else ""))
-
-
 def suites():
-    _SUPP[:] = [HostEnv(), Cli()]
-    return [Entry()] + _SUPP
+    return [Entry(), HostEnv(), Cli()]
